@@ -632,10 +632,30 @@ fn records_family(c: &mut Ctx) {
                             if got != want {
                                 c.violation("law:record-canonical-owner", &format!("records with different owners order {} but canonical name order is {}", ord_s(got), ord_s(want)), c.replay_of(fam, idx, pair()));
                             }
+                        } else if got != rs[i].t.cmp(&rs[j].t) {
+                            // one owner, different types: by type (RFC 4034 6: the RRsets of a name are ordered by type)
+                            c.violation("law:record-canonical-type", &format!("records of one owner with types {} and {} order {}", rs[i].t, rs[j].t, ord_s(got)), c.replay_of(fam, idx, pair()));
                         }
                     }
                     if got != y.canonical_cmp(x).reverse() {
                         c.violation("law:record-canonical-antisymmetric", "canonical_cmp not antisymmetric", c.replay_of(fam, idx, pair()));
+                    }
+                    // the same two records with their data carried opaquely (UnknownRecordData compares
+                    // octets only and leaves the type to the record): class, owner, type, then the octets
+                    {
+                        use domain::base::rdata::UnknownRecordData;
+                        let mkr = |k: usize| UnknownRecordData::from_octets(Rtype::from_int(rs[k].t), rs[k].wire.clone()).ok().map(|d| Record::new(Name::<Vec<u8>>::from_octets(rs[k].owner.clone()).unwrap(), Class::from_int(rs[k].class), Ttl::from_secs(rs[k].ttl), d));
+                        if let (Some(ux), Some(uy)) = (mkr(i), mkr(j)) {
+                            let want = rs[i].class.cmp(&rs[j].class).then(w::canonical_name_cmp(&rs[i].owner, &rs[j].owner)).then(rs[i].t.cmp(&rs[j].t)).then(rs[i].wire.cmp(&rs[j].wire));
+                            let g2 = ux.canonical_cmp(&uy);
+                            if g2 != want {
+                                c.violation("law:record-canonical-opaque-data", &format!("records carrying opaque data order {} canonically, class/owner/type/octets order {}", ord_s(g2), ord_s(want)), c.replay_of(fam, idx, pair()));
+                            }
+                            if (ux == uy) != (rs[i].class == rs[j].class && same_owner && rs[i].t == rs[j].t && rs[i].wire == rs[j].wire) {
+                                c.violation("law:record-eq-opaque-data", "equality of records carrying opaque data differs from class/owner/type/octets", c.replay_of(fam, idx, pair()));
+                            }
+                            c.count("opaque_record_pairs", 1);
+                        }
                     }
                     for &k in &ix {
                         let z = recs[k].as_ref().unwrap();
